@@ -22,6 +22,7 @@ type seed struct {
 }
 
 var seeds = []seed{
+	{"the size bound narrows the cardinality to int", "U6", "roaring.go", "\t// two bytes per value, computed in 64 bits: int(cardinality) wraps on 32-bit targets\n\tvalsarray := 2 * cardinality\n", "\tvalsarray := uint64(arrayContainerSizeInBytes(int(cardinality)))\n", "BoundSerializedSizeInBytes|cardinality narrowed"},
 	{"intIterator.init re-aims its run cursor field by field and forgets the offset", "R2", "roaring.go", "\t\t\tii.runIter = runIterator16{rc: t, curIndex: 0, curPosInIndex: 0}\n", "\t\t\tii.runIter.rc = t\n\t\t\tii.runIter.curIndex = 0\n", "init|re-aims runIter"},
 	{"the stream adapter skips with Seek when the reader happens to offer it", "B7", "internal/byte_input.go", "func (b *ByteInputAdapter) SkipBytes(n int) error {\n", "func (b *ByteInputAdapter) SkipBytes(n int) error {\n\tif s, ok := b.r.(io.Seeker); ok {\n\t\tif _, err := s.Seek(int64(n), io.SeekCurrent); err != nil {\n\t\t\treturn err\n\t\t}\n\t\tb.readBytes += n\n\t\treturn nil\n\t}\n", "SkipBytes|reader asserted"},
 	{"CheckedAdd uses the plain point kernel", "F8.point", "roaring.go", "\t\tC = C.iaddReturnMinimized(lowbits(x))\n\t\trb.highlowcontainer.setContainerAtIndex(i, C)\n\t\treturn C.getCardinality() > oldcard\n", "\t\tadded := C.iadd(lowbits(x))\n\t\t_ = oldcard\n\t\treturn added\n", "CheckedAdd|iadd"},
